@@ -75,7 +75,9 @@ fn param(s: &mut S, me: &str) -> String {
                 // inside characters for at least one of the three widths
                 let unit = ["\u{e9}", "\u{65e5}", "a\u{1f600}"][s.pick(3)];
                 // (a 0..4 byte ASCII lead shifts the phase, so every offset is hit mid-character)
-                format!("{}{}", long(s.pick(5), 'a'), unit.repeat(640 / unit.len()))
+                // (640 bytes, sometimes 1300: beyond the advertised 1000-byte limits of texts)
+                let total = if s.chance(30) { 1300 } else { 640 };
+                format!("{}{}", long(s.pick(5), 'a'), unit.repeat(total / unit.len()))
             }
         }
         15 => "*".into(),
@@ -282,6 +284,7 @@ fn build_scene(seeds: &[u16]) -> Scene {
     sc.send(b1, "OPER op0 operpw0");
     sc.send(b1, "JOIN &pre");
     sc.send(b1, "JOIN #c1");
+    sc.send(b1, "MODE #c1 +k k1");
     // a registered user who is on no channel of the scene
     let oc = sc.reg("out");
     sc.bystanders.push((oc, "out".into()));
@@ -469,7 +472,15 @@ pub fn check(c: &FuzzCase, st: &mut Stats) -> Result<(), Viol> {
                 0 => b"PRIVMSG n0 :\xff\xfe\xfd\r\n".to_vec(),
                 1 => b"PRIVMSG n0 :a\0b\r\n".to_vec(),
                 2 => b"PRIVMSG n0 :a\rb\r\nPING x\r\n".to_vec(),
-                3 => format!("PRIVMSG n0 :{}\r\nPING after\r\n", long(1995 + s.pick(20), 'y')).into_bytes(),
+                3 => {
+                    if s.chance(30) {
+                        // the same command twice in one write (the second one meets what the first
+                        // has left half done)
+                        ["KILL n2 :one\r\nKILL n2 :two\r\nPING after\r\n", "KICK #c0 n3\r\nKICK #c0 n3\r\nPING after\r\n", "PART #c0\r\nPART #c0\r\nPING after\r\n", "OPER op0 operpw0\r\nKILL n3 :x\r\nKILL n3 :y\r\nPING after\r\n"][s.pick(4)].as_bytes().to_vec()
+                    } else {
+                        format!("PRIVMSG n0 :{}\r\nPING after\r\n", long(1995 + s.pick(20), 'y')).into_bytes()
+                    }
+                }
                 4 => format!("{}\r\n", long(4100, 'z')).into_bytes(),
                 5 => b"\r\n\r\n   \r\n\n\nPING e\n".to_vec(),
                 _ => b"JOIN #c0\r\nPART #c0\r\nJOIN #c0\r\nPART #c0\r\nJOIN #c0\r\n".to_vec(),
